@@ -22,6 +22,10 @@ WRITER_ROOT_PREFIXES = ('jls_wr_', 'jls_twr_')
 def run(ctx, sess):
     ctx.explanation = EXPL
     ctx.not_decided = NOT_DECIDED
+    ctx.rule('C14.10', 'one writer at a time: every call into the synchronous writer from the threaded writer holds the process lock, so no second thread can move the file position between a chunk header and its payload (shared with C06.2)')
+    from .common import relay
+    from . import c06 as _src_c06
+    relay(ctx, sess, _src_c06.run, {'C06.2': 'C14.10'})
     P = sess.prog('default')
     exc = exceptions('C14')
     ctx.rule('C14.1', 'single write point: libc write only in jls_bk_fwrite, ftruncate only in jls_bk_truncate, and jls_bk_truncate is not reachable from any writer API root')
@@ -31,6 +35,7 @@ def run(ctx, sess):
     ctx.rule('C14.5', 'in-place payload rewrite: jls_raw_wr_payload outside the append operation rewrites only a track head table, after seeking to that head chunk')
     ctx.rule('C14.6', 'head table entries are written once: a store to head_offsets[i] reachable from writer roots is guarded by head_offsets[i] == 0 and stores the offset of a chunk already written')
     ctx.rule('C14.7', 'seek bracket: after an in-place write every path to a zero return restores the saved position')
+    ctx.rule('C14.11', 'the file header is written when the file is created and when it is closed, never in between: the function that writes the file header at offset 0 is called only from the raw open and the raw close')
     ctx.rule('C14.9', 'the append operation is used only at the end of the file: in writer code no jls_raw_wr is reachable from a seek to a remembered chunk offset unless the saved end position was restored first')
     ctx.rule('C14.8', 'a chunk is linked (and its header cached for later rewrite) only after it was written and stamped: jls_raw_wr(&X.hdr) dominates jls_core_update_item_head(.., &X)')
 
@@ -210,6 +215,7 @@ def run(ctx, sess):
 
     # ---- C14.6
     head_table_rule(ctx, P, wreach, 'C14.6')
+    file_header_rule(ctx, P)
 
     # ---- C14.9
     n9 = 0
@@ -411,3 +417,24 @@ def head_table_rule(ctx, P, wreach, rule):
                    'guarded by zero test: %s; value: %s' % (guard, vdetail))
     ctx.floor('head table stores reachable from writer roots', n6, 2)
 
+
+def file_header_rule(ctx, P):
+    """who may write the file header"""
+    # writers of the file header: functions that pass an object of the file-header record to jls_bk_fwrite
+    hw = set()
+    for fn, ev in P.callers().get('jls_bk_fwrite', []):
+        a = strip_casts(ev.args[1]) if len(ev.args) > 1 else None
+        if a is not None and any((nd.get('t') or '').endswith('jls_file_header_s') for nd in walk(a)):
+            hw.add(fn.name)
+    if not hw:
+        raise AnalysisBroken('no function writes a jls_file_header_s')
+    n = 0
+    for h in sorted(hw):
+        for fn, ev in P.callers().get(h, []):
+            n += 1
+            ctx.saw(fn, 1)
+            ok = fn.name in ('jls_raw_open', 'jls_raw_close') or fn.name in hw
+            ctx.ob('C14.11', ok, fn.name, 'call of %s()' % h, ev.where(),
+                   'file creation / close' if ok else
+                   'the file header (offset 0) is rewritten outside open and close: bytes that were stored are modified while the recording is in progress')
+    ctx.floor('calls of the file header writer', n, 2)
